@@ -581,6 +581,12 @@ func (d *Document) AutoGenerateTOC(config *TOCConfig) error {
 	// 使用真正的Word域字段生成目录，而不是简化的SDT
 	tocElements := d.createWordFieldTOC(config, entries)
 
+	// 如果文档中已有目录（SDT），则原位替换：重新生成目录不应再插入第二个目录
+	if _, tocIndex := d.findTOCSDT(); tocIndex != -1 {
+		d.Body.Elements[tocIndex] = tocElements[0]
+		return nil
+	}
+
 	// 将目录插入到指定位置
 	if insertIndex == 0 {
 		// 在开头插入
@@ -919,6 +925,15 @@ func (d *Document) collectHeadingsAndAddBookmarks(maxLevel int) []TOCEntry {
 						BookmarkID: anchor,
 					}
 					entries = append(entries, entry)
+
+					// 标题前已有同名目录书签（之前生成过目录）时不再重复添加
+					if n := len(newElements); n > 0 {
+						if existing, ok := newElements[n-1].(*BookmarkStart); ok && existing.Name == anchor {
+							newElements = append(newElements, element)
+							entryIndex++
+							continue
+						}
+					}
 
 					// 在标题段落前添加书签开始标记
 					bookmarkStart := &BookmarkStart{
